@@ -47,6 +47,11 @@ LineOK(e) ==
     [] e.f = "identity" -> /\ e.bytes = EncFr(e.val[1]) \o EncFr(e.val[2]) \o EncFr(e.val[3]) \o EncFr(e.val[4])
                            /\ e.pair = <<e.val[1], e.val[2]>> /\ e.tuple = e.val
     [] e.f = "str" -> e.dec /\ e.hex
+    \* the message a prover emits is the 288-byte layout whatever the writer accepts per call (the proof part is
+    \* randomised; the 160 public-value bytes are those of the same request through a growable vector), it
+    \* verifies, and a buffer that cannot hold it is an error
+    [] e.f = "message" -> e.res = "ok" /\ e.len = 288 /\ e.pub = e.ref_pub /\ Len(e.pub) = 160 /\ e.accepted
+    [] e.f = "message_small" -> e.res = "err"
     [] e.f = "layout" -> e.ok                 \* byte layouts of RLN outputs decoded by the recorder's own strict decoders
     [] OTHER -> FALSE
 
